@@ -210,8 +210,8 @@ def rule_tls(ctx, facts, inv):
             users = []
             for cb in fn.calls():
                 for a in fn.term(cb)["args"][:1]:
-                    if a["k"] in ("move", "copy") and root_local(fn, a)[0] == dest:
-                        users.append(fn.term(cb)["callee"])
+                    if a["k"] in ("move", "copy") and root_local(fn, a)[0] == dest and not root_local(fn, a)[1]:
+                        users.append(fn.term(cb)["callee"])      # the Result itself, not the payload taken out of a matched Ok(..)
             matched = any((fn.switch_info(sb) or {}).get("kind") == "discr" and fn.switch_info(sb)["place"]["l"] == dest
                           for sb in range(len(fn.blocks)))
             ok = bool(users or matched) and all(re.search(r"Result::<T, E>::(ok|unwrap_or_default|unwrap_or_else|unwrap_or|map|is_ok|is_err|and_then|map_err)$", u)
